@@ -342,6 +342,52 @@ def rule_r4(chk, db):
     chk.verdict(ok, "R4", "key-bound", b.loc(), "check_key accepts byte lengths up to %s (documented: 1024)" % hi)
 
 
+def rule_r4b(chk, db):
+    """the only way a request is refused as 'key too long' is check_key's verdict (on the decoded key): a length test on anything else -
+    the encoded path, the whole URI - refuses legal keys whose wire form is longer"""
+    n = 0
+    for b in db.grep("KeyTooLong"):
+        if b.crate != "s3s" or b.derived or b.name.startswith(("s3s::error::", "s3s::dto::generated")) or "::tests::" in b.name or b.impl_trait:
+            continue
+        for bi, si, st in b.stmts():
+            rv = st["rv"]
+            if rv["k"] != "agg" or rv.get("variant") not in ("KeyTooLongError", "KeyTooLong"):
+                continue
+            n += 1
+            f = guards.dominating_facts(b, bi)
+            if rv["variant"] == "KeyTooLongError":
+                ok = any(x[0] == "enum" and x[1].endswith("ParseS3PathError") and x[2] == frozenset(["KeyTooLong"]) for x in f)
+                why = "KeyTooLongError is raised without the path parser having answered KeyTooLong"
+            else:
+                ok = any(x[0] == "call" and x[1] == "s3s::path::check_key" and x[2] is False for x in f)
+                why = "ParseS3PathError::KeyTooLong is returned without check_key having refused the key"
+            chk.verdict(ok, "R4", "too-long-only-from-check_key@%s" % short(db.root_of(b).name), b.loc(bi),
+                        why + ": a length bound measured on something other than the decoded key refuses keys of up to 1024 bytes")
+    chk.floor("R4.sites", n, 3, "constructions of KeyTooLong / KeyTooLongError outside the error tables")
+
+
+def rule_r1q(chk, db):
+    """the query string reaches OrderedQs::parse (which decodes each name and value once) as Uri::query() gave it"""
+    sites = [(b, bi, t) for b in db.grep("OrderedQs::parse") if b.crate == "s3s" and "::tests::" not in b.name for bi, t in b.calls()
+             if callee_def(t).endswith("ordered_qs::OrderedQs::parse")]
+    chk.floor("R1.query", len(sites), 1, "OrderedQs::parse call sites")
+    for b, bi, t in sites:
+        ib = inline.inlined(db, b) if b.kind in ("Fn", "AssocFn") else b
+        for bi2, t2 in ib.calls():
+            if not callee_def(t2).endswith("ordered_qs::OrderedQs::parse"):
+                continue
+            sl = flow.backward(ib, t2["args"][0], at=bi2)
+            decs = sorted({callee_def(x) for _, x, _ in sl.calls if is_decoder(callee_def(x))})
+            from_uri = any(callee_def(x) == "http::uri::Uri::query" for _, x, _ in sl.calls)
+            chk.verdict(from_uri and not decs, "R1", "query-decoded-once@%s" % short(db.root_of(b).name), ib.loc(bi2),
+                        "the query handed to OrderedQs::parse %s: an encoded `&` or `=` inside a value becomes a separator, so value data turns into query flags" %
+                        ("was already percent-decoded by %s (the parser decodes every name and value itself)" % decs if decs else "does not come from Uri::query()"))
+    qp = db.body("s3s::http::ordered_qs::OrderedQs::parse")
+    if qp is not None:
+        ds = [1 for x in db.nested(qp) for _, t in x.calls() if is_decoder(callee_def(t)) or "form_urlencoded" in callee_def(t) or "serde_urlencoded" in callee_def(t)]
+        chk.verdict(bool(ds), "R1", "query-parser-decodes", qp.loc(), "OrderedQs::parse no longer decodes names and values", nontrivial=False)
+
+
 def _is_closure(b, op, name):
     """the operand is the closure `name` (possibly bound to a local first)"""
     for l, pr in (flow.resolve_chain(b, op) or []):
@@ -510,6 +556,8 @@ def run(chk, db, tier):
     chk.guard("R2", rule_r2, db, roles)
     chk.guard("R3", rule_r3, db)
     chk.guard("R4", rule_r4, db)
+    chk.guard("R4", rule_r4b, db)
+    chk.guard("R1", rule_r1q, db)
     chk.guard("R5", rule_r5, db)
     chk.guard("R6", rule_r6, db)
     chk.guard("R7", rule_r7, db)
